@@ -50,6 +50,14 @@ CLAIMED = {
    technique="bounded exhaustive enumeration of (text, expected tree) pairs from an independent reference grammar x all single (thorough: pairs of) departures from canonical spelling, parsed by the real parser",
    text="A reference grammar that never calls the rrss parser generates token lists together with the tree its own semantic actions assign (precedence ladder, left-associative folds, last-operator-takes-the-list, argument separators, one blank line closes one block, else closes a then-block, an if-else ends a function body). Exhausted: all chains of 2 and 3 operators over 18 operator spellings, unary prefixes in every position, list operands at every level, primaries (subscripts, calls x 5 separators x 1..3 arguments, roll, literal kinds, 10 numeral and 7 string spellings, three name kinds), all 18 statement kinds with every slot filled from a 14-shape set in 3 contexts, all block-nesting shapes up to 8/9 nodes closed by blank lines or by end of input; and on ~7 000 base programs every single departure from canonical spelling: each keyword x every alias of a 132-word alias table (own copy), 3 case variants plus all 2^n casings for short words, each gap x 14 noise kinds (spaces, tabs, ignorable punctuation, stray apostrophe, one- and two-line comments), 's / 're, trailing punctuation, indentation, missing final newline. Oracle: position-free tree of parse(text) equals the grammar's tree.",
    note="Trusted: the reference grammar (refmodel/grammar.rs) and the position-free converter. Not generated: corners the property does not determine (nested lists in later elements, empty blocks followed by statements), identifier case (C15), poetic content (C11)."),
+ "C11": dict(level="exploration", design="§2 C11",
+   technique="bounded exhaustive enumeration of poetic word sequences, line texts and digit strings, executed on the real parser/interpreter and on PoeticNumberLiteral::compute_value, against the decimal numeral the words spell",
+   text="All sequences of 1..4/5 atoms over a 24-atom alphabet (word lengths incl. multiples of 10, apostrophes in every position, 's / 're / 's's suffixes, hyphenated words, keywords and numerals used as words, non-ASCII, periods and commas separate and glued) after 6 heads; all line texts <=4/5 characters over a 9-symbol alphabet plus whole-lexeme atoms after says/said, mid-file and at end of input; every digit string <=6/7 x every position of the decimal point through compute_value, as plain words and as word+suffix splits (8.9 M / 89 M literals x 2); right-hand sides that are expressions instead. Oracle: the numeral assembled from counted word lengths, correctly rounded (<=4 ulp, integers exact); strings byte for byte. The recorded finding (an open quote swallows following lines) is probed by one fixed input and reported as KNOWN-FINDING.",
+   note="Trusted: the numeral rule as stated by the property. Texts that leave a quote/parenthesis open are outside the quantifier and not generated (except the probe)."),
+ "C13": dict(level="exploration", design="§2 C13",
+   technique="bounded exhaustive fault injection: every valid program shape x every statement/header position x a catalogue of context-independent syntax faults, parsed by the real parser",
+   text="Every block-nesting shape up to 5/6 nodes x every simple-statement position x 113 faulty lines (last operand removed, required keyword removed, two statements joined, invalid identifier, unterminated string/comment, stray tokens), every block header x header faults, and 16 hand-written contexts (blank lines, two-line comments and strings with and without suffix before the fault, nested blocks, with/without final newline) x the catalogue plus two-line faults whose offending token is a suffix after a multi-line literal. Oracle: parse returns Err (never accepted or truncated) and the message names the line of the offending or missing token, which the injector knows by construction.",
+   note="Trusted: the catalogue contains only faults that are invalid in every statement position (validated by the run on the unchanged tree: no accepted case). The message format `Parse error (line N)` is the interface."),
 }
 NOT_YET = "check under construction in this session (not yet claimed)"
 ids=[json.loads(l)["id"] for l in open("/verif/properties.jsonl")]
